@@ -4,6 +4,7 @@ package main
 
 import (
 	"context"
+	"time"
 	"fmt"
 	"math/rand"
 	"os"
@@ -36,6 +37,7 @@ type c20Case struct {
 	Crash    string   `json:"crash"`
 	Err      string   `json:"err,omitempty"`
 	TextB64  string   `json:"text,omitempty"`
+	Errs     [][2]int `json:"errs"` // syntax errors reported to the handler, in order: [offset, endoffset]
 }
 
 const c20TypeBase = 1000
@@ -107,6 +109,9 @@ func c20Build(args []string) error {
 		c := &cases[i]
 		c.ID = i
 		c20BuildOne(c)
+		if c.Errs == nil {
+			c.Errs = [][2]int{}
+		}
 		if err := w.Write(c); err != nil {
 			return err
 		}
@@ -114,9 +119,27 @@ func c20Build(args []string) error {
 	return w.Close()
 }
 
+// c20ParseGuarded runs one parse with a watchdog: a parse that does not return is recorded as a hang
+func c20ParseGuarded(c *c20Case, text string) {
+	done := make(chan struct{})
+	tmp := *c
+	go func() {
+		defer close(done)
+		c20ParseOne(&tmp, text)
+	}()
+	select {
+	case <-done:
+		*c = tmp
+	case <-time.After(20 * time.Second):
+		c.Kind, c.Len, c.Ev, c.Parent, c.Children, c.Errs = "parse", len(text), [][3]int{}, []int{}, [][]int{}, [][2]int{}
+		c.Crash = "hang: the parser did not return within 20 s"
+	}
+}
+
 func c20ParseOne(c *c20Case, text string) {
 	c.Kind = "parse"
 	c.Len = len(text)
+	c.Errs = [][2]int{}
 	c.Ev = [][3]int{}
 	c.Parent, c.Children = []int{}, [][]int{}
 	defer func() {
@@ -137,14 +160,14 @@ func c20ParseOne(c *c20Case, text string) {
 		var p tm.Parser
 		l := func(t tm.NodeType, off, end int) { add(off, end) }
 		s.Init(text, l)
-		p.Init(func(tm.SyntaxError) bool { return true }, l)
+		p.Init(func(se tm.SyntaxError) bool { c.Errs = append(c.Errs, [2]int{se.Offset, se.Endoffset}); return true }, l)
 		err = p.ParseFile(ctx, &s)
 	case "js":
 		var s js.TokenStream
 		var p js.Parser
 		l := func(t js.NodeType, off, end int) { add(off, end) }
 		s.Init(text, l)
-		p.Init(func(js.SyntaxError) bool { return true }, l)
+		p.Init(func(se js.SyntaxError) bool { c.Errs = append(c.Errs, [2]int{se.Offset, se.Endoffset}); return true }, l)
 		err = p.ParseModule(ctx, &s)
 	case "json":
 		var lx json.Lexer
@@ -231,7 +254,7 @@ func c20Parse(args []string) error {
 			}
 		}
 		c := &c20Case{ID: id, Parser: parser, Origin: op}
-		c20ParseOne(c, text)
+		c20ParseGuarded(c, text)
 		if c.Crash != "" || len(text) < 300 {
 			c.TextB64 = b64(text)
 		}
@@ -328,7 +351,7 @@ func c20Gen(args []string) error {
 	id := 0
 	for i, it := range items {
 		if it.GenErr != "" {
-			c := &c20Case{ID: id, Kind: "parse", Parser: "generated-fixws", Origin: variants[i].decl, Crash: "generation: " + it.GenErr, Ev: [][3]int{}, Parent: []int{}, Children: [][]int{}}
+			c := &c20Case{ID: id, Kind: "parse", Parser: "generated-fixws", Origin: variants[i].decl, Crash: "generation: " + it.GenErr, Ev: [][3]int{}, Parent: []int{}, Children: [][]int{}, Errs: [][2]int{}}
 			id++
 			if err := w.Write(c); err != nil {
 				return err
@@ -337,7 +360,7 @@ func c20Gen(args []string) error {
 		}
 		names := map[string]int{}
 		for k, text := range it.Texts {
-			c := &c20Case{ID: id, Kind: "parse", Parser: "generated-fixws", Origin: variants[i].decl, Len: len(text), Ev: [][3]int{}, Parent: []int{}, Children: [][]int{}, TextB64: b64(text)}
+			c := &c20Case{ID: id, Kind: "parse", Parser: "generated-fixws", Origin: variants[i].decl, Len: len(text), Ev: [][3]int{}, Parent: []int{}, Children: [][]int{}, Errs: [][2]int{}, TextB64: b64(text)}
 			id++
 			if it.Errs[k] != "" {
 				c.Crash = "sentence rejected: " + it.Errs[k]
